@@ -577,15 +577,20 @@ class AsyncServer:
                     raise ServerBacklogFull(len(pipeline))
                     # If this is behind a HTTP service, should return
                     # code 503 (Service Unavailable) to client.
-                try:
-                    await asyncio.wait_for(
-                        self._pipeline_notfull.wait(), timeout * 0.99
-                    )
-                except (
-                    asyncio.TimeoutError,
-                    TimeoutError,
-                ):  # should be the first one, but official doc referrs to the second
-                    raise ServerBacklogFull(len(pipeline), perf_counter() - t0)
+                deadline = t0 + timeout * 0.99
+                while len(pipeline) >= self._capacity:
+                    # Check again after each wake-up: the freed slot may have
+                    # been taken by another request in the meantime.
+                    t = deadline - perf_counter()
+                    if t <= 0:
+                        raise ServerBacklogFull(len(pipeline), perf_counter() - t0)
+                    try:
+                        await asyncio.wait_for(self._pipeline_notfull.wait(), t)
+                    except (
+                        asyncio.TimeoutError,
+                        TimeoutError,
+                    ):  # should be the first one, but official doc referrs to the second
+                        pass
 
             # We can't accept situation that an entry is placed in `pipeline`
             # but not in `_input_buffer`, for that entry would be stuck in `pipeline`
